@@ -6,7 +6,7 @@ cd "$(dirname "$0")/.." || exit 2
 pat="${1:-*}"
 for d in seeded/$pat; do
     [ -f "$d/patch.diff" ] || continue
-    chk=$(/venv/bin/python -c "import json,sys; print(json.load(open(sys.argv[1]))['how_to_rerun'].split()[-1])" "$d/meta.json" 2>/dev/null)
+    chk=$(/venv/bin/python -c "import json,sys; t=json.load(open(sys.argv[1]))['how_to_rerun'].split(); print(t[[i for i,x in enumerate(t) if x.endswith('patch.diff')][0]+1])" "$d/meta.json" 2>/dev/null)
     [ -n "$chk" ] || chk=$(basename "$d" | cut -d- -f1)
     r=$(harness/try_mutation_wt.sh "$d/patch.diff" "$chk" 2>&1 | head -1)
     echo "$(basename "$d") -> $chk: $r"
